@@ -31,6 +31,7 @@ RULE = (
     "in header order equal the spec, extractfile(m).read() equals the bytes placed at the recorded offset; archives without "
     "visor members must list and extract exactly as tarfile.open does. Non-trivial = >= 2 visor files whose data order "
     "differs from header order, or visor and inline members mixed."
+    " Solaris 'X' extended headers; the archive object dropped before member data is read; a second process variant with debug logging on."
 )
 ASSUMPTIONS = [
     "visor headers are followed directly by the next header; file data of visor members lives behind the header area (with or "
